@@ -115,7 +115,7 @@ def run_check(pid, tier, seed):
     broken = []
     explore = {}
     try:
-        problems, nfiles = coq.gate()
+        problems, nfiles = coq.gate(['Common', pid] + list(getattr(H, 'DEPS', ())))
         if problems:
             broken.append({'what': 'gate', 'detail': problems[:10]})
         regenerate(ctx, H)
